@@ -528,6 +528,10 @@ impl<'a> Gen<'a> {
             };
             self.recvs[id].shape = Shape::Newtype(inner);
         }
+        // a declared value-for-absent on a unit / newtype receiver
+        if self.profile.options && self.rng.chance(1, 3) {
+            self.recvs[id].from_none = true;
+        }
         id
     }
 
